@@ -1,6 +1,7 @@
 package main
 
 import (
+	"sort"
 	"bytes"
 	"encoding/json"
 	"errors"
@@ -292,6 +293,18 @@ func init() {
 		rsSeq, err := uSeq.root.Resolve(uSeq.opts)
 		if err != nil {
 			return map[string]any{"outcome": "resolve-error"}, nil
+		}
+		// an incomplete PropertyOrder with spare capacity (what append-built orders look like): Marshal and CloneSchemas of the
+		// shared tree read it concurrently and must not write behind its length
+		for _, r := range []*jsonschema.Schema{u.root, uSeq.root} {
+			if len(r.Properties) >= 2 {
+				names := make([]string, 0, len(r.Properties))
+				for k := range r.Properties {
+					names = append(names, k)
+				}
+				sort.Strings(names)
+				r.PropertyOrder = append(make([]string, 0, 8), names[len(names)-1])
+			}
 		}
 		rs, err := u.root.Resolve(u.opts)
 		if err != nil {
